@@ -155,6 +155,8 @@ def c07(ctx):
         res = json.loads(p.stdout)
         if not res["optimized"]:
             raise RuntimeError("body_io batch driver did not run optimized")
+        if os.path.realpath(res["tree"]) != os.path.realpath(os.environ.get("VERIF_REPO", "/repo")):
+            raise RuntimeError("body_io batch driver imported gunicorn from %s" % res["tree"])
         for (j, tr, meta), ev in zip(ojobs, res["results"]):
             traces.append(dict(tr, ev=ev))
             metas.append(meta)
